@@ -3,6 +3,7 @@ C14  Particle and sink tables are loaded completely, typed and scaled correctly.
 The particle-file alignment theorem is `Readers.part_header_aligned` (all header record
 sizes, all type mixes, all particle counts incl. zero, read or skipped columns).
 -/
+import OsyrisProofs.Layout
 import OsyrisProofs.Readers
 
 namespace Osyris.C14
